@@ -89,6 +89,13 @@ func run(t *testing.T, c elliptic.Curve) {
 	s := rt.S(name).SetRule("signing key d in [1,N), blind key bytes (incl. leading zeros, >= N, empty/0/1/N-1, 70..90 random bytes), contexts (nil, empty, 0x00, containing 0x00, 200..600 bytes), digests of length 0..128, second blind; oracle: blinded public key == [r]pk with r = hash_to_field(XMD, curve hash, DST 'ECDSA Key Blind', L) of minimal-BE(blind) || 0x00 || ctx recomputed by the harness (RFC 9380 from scratch, self-tested) on crypto/elliptic; blind-key signature verifies under the blinded key with this package AND crypto/ecdsa, not under the unblinded key; unblind inverts; two blindings commute; changing blind (ctx fixed) or ctx (blind fixed) changes the key. non-trivial = every case; distinct by (d, blind, ctx, digest)")
 	rt.Check(t, 150, 30000, func(t *rapid.T) {
 		dB := scalarBytes(t, c, "d")
+		if gen.Uniform(t, 6, "oversizeSigningKey") == 0 {
+			// a signing key given as an encoding longer than the curve's scalar size (value >= 2^(8*size)); CreateKey takes any byte string
+			dB = append(gen.Bytes(t, 1, 12, "dPrefix"), dB...)
+			if dB[0] == 0 {
+				dB[0] = 1
+			}
+		}
 		sk := key(t, c, dB)
 		b1, b2 := blindBytes(t, c, "blind1"), blindBytes(t, c, "blind2")
 		ctx := context(t, "ctx")
